@@ -668,30 +668,68 @@ __offs(struct zif_s z[static 1U], int32_t t)
 DEFUN time_t
 zif_utc_time(zif_t z, time_t t)
 {
-/* here's the setup, given t in local time, we denote the corresponding
- * UTC time by t' = t - x' where x' is the true offset
- * however, since we do not know the offset in advance, we have to solve
- * for an estimate of the offset x:
- * t - x + x' = t, or equivalently t - x = t' or as a root finding problem
- * x' - x = 0.
- * To make this iterative we just solve:
- * x_{i+1} - x_i = 0, where x_{i+1} = o(t - x_i) and o maps a given
- * time stamp to an offset. */
-/* make me use the cache please! */
-	/* let's go */
-	int32_t xi = 0;
-	int32_t xj;
-	int32_t old = -1;
+/* Given T in local time we are after the UTC time t' = t - x' where x' is
+ * the offset in effect at t'.  Where the clocks have been put back there
+ * are two such times, and we take the first; where they have been put
+ * forward there is none, and we take the offset from before the gap; that's
+ * how RFC 5545 (3.3.5) wants it.
+ * A first guess x = o(t - o(t)), where o maps a time stamp to its offset,
+ * lands in the right stretch between two transitions or next to it, so
+ * it's that stretch and its neighbours that we try. */
+	struct zrng_s r;
+	struct zrng_s cand[3U];
+	size_t ncand = 0U;
+	time_t res = 0;
+	bool gotp = false;
+	int32_t x;
 
 	/* jump off the cliff if Z is nought */
 	if (UNLIKELY(z == NULL)) {
 		return t;
 	}
-
-	while ((xj = __offs(AS_MUT_ZIF(z), t - xi)) != xi && xi != old) {
-		old = xi = xj;
+	switch (z->cz) {
+	default:
+	case TZCZ_UNK:
+		break;
+	case TZCZ_UTC:
+		return t;
 	}
-	return t - xj;
+
+	x = __offs(AS_MUT_ZIF(z), t);
+	(void)__offs(AS_MUT_ZIF(z), t - x);
+	/* the stretch we've landed in */
+	r = z->cache;
+	if (r.prev > INT_MIN) {
+		cand[ncand++] = zif_find_zrng(z, (time_t)r.prev - 1);
+	}
+	cand[ncand++] = r;
+	if (r.next < INT_MAX) {
+		cand[ncand++] = zif_find_zrng(z, r.next);
+	}
+	/* the first stretch that T, less the stretch's offset, falls into */
+	for (size_t i = 0U; i < ncand; i++) {
+		const time_t u = t - cand[i].offs;
+
+		if ((cand[i].prev == INT_MIN || u >= cand[i].prev) &&
+		    (cand[i].next == INT_MAX || u < cand[i].next)) {
+			if (!gotp || u < res) {
+				res = u;
+				gotp = true;
+			}
+		}
+	}
+	if (LIKELY(gotp)) {
+		return res;
+	}
+	/* a time the clocks have skipped then,
+	 * go with the offset before the gap */
+	for (size_t i = 0U; i + 1U < ncand; i++) {
+		if (t - cand[i].offs >= cand[i].next &&
+		    t - cand[i + 1U].offs < cand[i + 1U].prev) {
+			return t - cand[i].offs;
+		}
+	}
+	return t - r.offs;
 }
 
 /* convert utc to local */
